@@ -48,6 +48,7 @@ def run(chk, repo):
     chk.rule("C18-E8", "construct classes of the package read from the stream only through length-checked reads", 0)
     chk.attempt(e8, chk, op)
     chk.attempt(positions_from_the_front, chk, repo)
+    chk.attempt(missing_files, chk, repo)
     from ..layout import UnmodelledConstruct
     L = Layouts(repo)
     SWALLOWING = {"Optional", "Select", "GreedyRange", "GreedyBytes", "GreedyString", "Peek", "RepeatUntil", "Default", "NullTerminated", "CString", "StopIf", "IfThenElse", "If", "Switch", "LazyStruct", "Lazy"}
@@ -381,7 +382,7 @@ def e4(chk, op):
                     collected = stored and later_raise
                 # (b') the caught error leaves the function as a value (yielded / returned / handed to a call): whether it surfaces is
                 # decided where it can be - for the summary reader by evaluating it on corrupted texts (same corpus as C14-S9)
-                if not only_cache and not collected and fi.module.name.startswith("ceos_alos2.summary"):
+                if not only_cache and not collected and fi.module.name.startswith("ceos_alos2.summary") and _line_parse_side(op, fi, callee_keys):
                     # a handler of the summary reader that is not in the collect-and-raise form (the error leaves as a value, the
                     # loop lives in a helper, ...): whether a damaged summary raises is decided by evaluating the reader on
                     # corrupted texts (same corpus as C14-S9)
@@ -403,6 +404,18 @@ def e4(chk, op):
                             key=f"{fi.key}:except:{'/'.join(map(str, cname))}", sample={"handler": cname, "why": why})
     if n < 2:
         raise AnalysisError(f"only {n} non-re-raising handlers found on the open path (expected open_image and parse_summary)")
+
+
+def _line_parse_side(op, fi, callee_keys):
+    """is this handler part of what the corpus evaluation of the summary reader runs (open_summary with the section transformers
+    replaced by the identity): code reachable from open_summary but not from transform_summary"""
+    root, tr = "ceos_alos2.summary:open_summary", "ceos_alos2.summary:transform_summary"
+    if root not in op.g.funcs or tr not in op.g.funcs:
+        return False
+    s_tr = op.g.reachable([tr])
+    if fi.key == root:
+        return not (set(callee_keys) & s_tr)
+    return fi.key in op.g.reachable([root]) and fi.key not in s_tr
 
 
 def _names_holding(h, fi):
@@ -495,3 +508,121 @@ def _can_return_empty(repo, fi, grow_call):
                         gs = [short(t, 40) for t, pol in guards_of(r, cal.func.node)]
                         out.append(f"{cal.func.qualname} returns an empty list when {' and '.join(gs) or 'called'}")
     return "; ".join(out[:2])
+
+
+def missing_files(chk, repo):
+    """C18-E9: io.open evaluated (the checker's interpreter) on a model product from which one file at a time is missing: the summary,
+    the volume directory, the leader, each image.  The mapper is a model of fsspec's FSMap (``[...]`` raises KeyError for a missing
+    key; ``getitems(keys, on_error='return')`` hands back a KeyError *instance* for it; ``in`` / ``get`` as a Mapping); the parsers
+    and transforms of the three metadata readers are markers, sar_image.open_image raises FileNotFoundError for a missing image.
+    Every such open must raise an error of the OSError family (which FileNotFoundError belongs to); the complete product must give a
+    tree (otherwise the stubs do not fit the code and nothing is decided)."""
+    from collections import OrderedDict
+    from ..shapes import Const, DictS, Fn, Interp, ListLit, ModuleRef, NonTermination, Obj, ShapeError, TupS, _Raise
+    io = repo.module("ceos_alos2.io")
+    si = repo.module("ceos_alos2.sar_image")
+    where = f"{io.relpath}:open"
+    files = ["summary.txt", "VOL-P", "LED-P", "IMG-HH-P", "IMG-HV-P", "TRL-P"]
+    chk.rule("C18-E9", "io.open on a model product with one file missing (summary, volume directory, leader, each image): an OSError-family error; the trailer is never read", 5)
+    KE = ["KeyError", "LookupError", "Exception", "BaseException", "object"]
+    FNF = ["FileNotFoundError", "OSError", "Exception", "BaseException", "object"]
+
+    def G(path, data=None, attrs=None):
+        return Obj("Group", OrderedDict(path=Const(path), url=Const("u"), data=data or DictS(), attrs=attrs or DictS()))
+
+    def run(missing):
+        I = Interp(repo)
+        present = {f: Const(b"bytes of " + f.encode()) for f in files if f != missing}
+        reads = []
+
+        def key(k):
+            if not (isinstance(k, Const) and isinstance(k.v, str)):
+                raise ShapeError(f"model mapper: key {k!r:.40}")
+            return k.v
+
+        def getitem(I_, a, kw):
+            reads.append(key(a[0]))
+            if key(a[0]) not in present:
+                raise _Raise(f"KeyError {key(a[0])!r}", KE)
+            return present[key(a[0])]
+
+        def getitems(I_, a, kw):
+            keys = [key(x) for x in I_.iterate(a[0])]
+            on_error = kw.get("on_error", a[1] if len(a) > 1 else Const("raise"))
+            on_error = on_error.v if isinstance(on_error, Const) else None
+            out = OrderedDict()
+            for k in keys:
+                reads.append(k)
+                if k in present:
+                    out[k] = present[k]
+                elif on_error == "raise":
+                    raise _Raise(f"KeyError {k!r}", KE)
+                elif on_error == "return":
+                    out[k] = Obj("Exception", OrderedDict(args=TupS([]), classes=Const(tuple(KE))))  # FSMap turns FileNotFoundError into a bare KeyError()
+                elif on_error != "omit":
+                    raise ShapeError(f"model mapper: getitems(on_error={on_error!r})")
+            return DictS(out)
+
+        def get(I_, a, kw):
+            reads.append(key(a[0]))
+            return present.get(key(a[0]), a[1] if len(a) > 1 else kw.get("default", Const(None)))
+        mapper = Obj("Mapper", OrderedDict(root=Const("memory://product"), fs=Obj("InnerFS", OrderedDict())))
+        mapper.fields.update(__getitem__=Fn("py", impl=getitem, name="__getitem__"), getitems=Fn("py", impl=getitems, name="getitems"), get=Fn("py", impl=get, name="get"),
+                             __contains__=Fn("py", impl=lambda I_, a, kw: Const(key(a[0]) in present), name="__contains__"))
+        sc = I.module_scope(io)
+        sc.vars["fsspec"] = Obj("fsspec", OrderedDict(get_mapper=Fn("py", impl=lambda I_, a, kw: mapper, name="get_mapper")))
+        roles = DictS(OrderedDict([("volume_directory", Const("VOL-P")), ("sar_leader", Const("LED-P")), ("sar_imagery", ListLit([Const("IMG-HH-P"), Const("IMG-HV-P")])), ("sar_trailer", Const("TRL-P"))]))
+        summary = G("summary", DictS({"product_information": G("product_information", DictS({"data_files": G("data_files", None, roles)}))}))
+        stubbed = []
+
+        def strict_parser(name, result):
+            def impl(I_, a, kw):
+                x = a[0] if a else None
+                if not (isinstance(x, Const) and isinstance(x.v, (bytes, str))):
+                    what = x.fields["classes"].v[0] + " instance" if isinstance(x, Obj) and x.cls == "Exception" else repr(x)[:40]
+                    raise _Raise(f"TypeError: a bytes-like object is required, not {what}", ["TypeError", "Exception", "BaseException", "object"])
+                stubbed.append(name)
+                return result
+            return Fn("py", impl=impl, name=name)
+        sm, vm, lm = repo.module("ceos_alos2.summary"), repo.module("ceos_alos2.volume_directory.io"), repo.module("ceos_alos2.sar_leader.io")
+        I.module_scope(sm).vars["parse_summary"] = strict_parser("parse_summary", DictS())
+        I.module_scope(sm).vars["transform_summary"] = Fn("py", impl=lambda I_, a, kw: summary, name="transform_summary")
+        I.module_scope(vm).vars["parse_data"] = strict_parser("volume parse_data", DictS())
+        I.module_scope(vm).vars["transform_record"] = Fn("py", impl=lambda I_, a, kw: G("/", None, DictS({"vol": Const("V")})), name="transform_record")
+        I.module_scope(lm).vars["parse_data"] = strict_parser("leader parse_data", DictS())
+        I.module_scope(lm).vars["transform_metadata"] = Fn("py", impl=lambda I_, a, kw: G("metadata"), name="transform_metadata")
+
+        def open_image(I_, a, kw):
+            fname = a[1] if len(a) > 1 else kw.get("path")
+            name = key(fname)
+            reads.append(name)
+            if name not in present:
+                raise _Raise(f"FileNotFoundError: [Errno 2] No such file or directory: {name!r}", FNF)
+            return G("/" + name.split("-")[1], None, DictS({"src": fname}))
+        I.module_scope(si).vars["open_image"] = Fn("py", impl=open_image, name="open_image")
+        sc.vars["sar_image"] = ModuleRef(mod=si)
+        try:
+            out = I.call(I.lookup("open", sc), [Const("memory://product")], {})
+            return "returned", out, reads, stubbed
+        except _Raise as e:
+            return "raised", e, reads, stubbed
+    try:
+        st, out, reads, stubbed = run(None)
+        if st != "returned" or not (isinstance(out, Obj) and out.cls == "Group"):
+            raise AnalysisError(f"{where}: the complete model product does not open with the recording stubs ({(out.what if st == 'raised' else repr(out))[:100]}); the stubs do not fit the code, nothing is decided")
+        if len(set(stubbed)) < 3:
+            raise AnalysisError(f"{where}: the parsers of the three metadata readers are not reached as module-level collaborators ({sorted(set(stubbed))}); nothing is decided")
+        chk.require("TRL-P" not in reads, "C18-E9", where, "the trailer is never read", "the trailer file is read during the open: a missing trailer now fails the open", key="missing:trailer-read")
+        for missing, what in (("summary.txt", "the summary"), ("VOL-P", "the volume directory"), ("LED-P", "the leader"), ("IMG-HH-P", "the first image"), ("IMG-HV-P", "the last image")):
+            st, out, reads, _ = run(missing)
+            if st == "returned":
+                chk.fail("C18-E9", where, f"with {what} ({missing}) missing, io.open returns a tree instead of raising", key=f"missing:{'image' if missing.startswith('IMG') else missing}")
+                continue
+            ok = out.classes is not None and "OSError" in out.classes
+            if out.classes is None:
+                raise AnalysisError(f"{where}: with {what} missing the open raises `{out.what[:60]}`, whose class is not known to the interpreter; not decided")
+            chk.require(ok, "C18-E9", where, f"with {what} missing the open raises {out.classes[0]} (an OSError)",
+                        f"with {what} ({missing}) missing, io.open raises {out.classes[0]} ({out.what[:80]}), which is not an OSError / file-not-found error: `except OSError` around the open no longer sees a missing file",
+                        key=f"missing:{'image' if missing.startswith('IMG') else missing}")
+    except (ShapeError, NonTermination, RecursionError) as e:
+        raise AnalysisError(f"{where}: cannot be evaluated on the model product: {str(e)[:160]}")
